@@ -88,6 +88,8 @@ Judge(e) ==
        [] e.op = "Descendants" ->
          LET g == reg[e.a] r == P[e.out] I == Reach(g, e.id, e.depth) IN
            (IF ~HasNode(g, e.id) THEN (IF IsNil(r) \/ r.nodes = <<>> THEN {} ELSE {"descendants.unknown-start"})
+            \* a depth below one level is outside C15's quantifier (the start node is level one): only well-formedness (C08) is judged
+            ELSE IF e.depth < 1 THEN {}
             ELSE Tag("descendants.", ExtractContract(r, g, e.id, I,
                         {t \in Followed(g, e.id, I) : t[1] \in Reach(g, e.id, e.depth - 1)})))
            \cup WFc(e, {g}, r, TRUE) \cup Frame(e, {e.out})
